@@ -65,7 +65,7 @@ def public_methods(cls):
 
 # ---- symbolic values ---------------------------------------------------------------------------
 # ('param', name) | ('quoted', safe, v) | ('or', [v]) | ('const', text) | ('body', [(k, text)]) |
-# ('ifexp', cond, a, b) | ('response',)
+# ('ifexp', cond, a, b) | ('response',) | ('path', template, [(enc, alts)])
 def vtxt(v):
     k = v[0]
     if k == 'param':
@@ -100,6 +100,8 @@ class MethodEval:
         if isinstance(e, ast.Name):
             if e.id in env:
                 return env[e.id]
+            if e.id in self.consts:
+                return ('path', self.consts[e.id], [])
             raise self.err('unbound name %s' % e.id, e)
         if isinstance(e, ast.Constant):
             return ('const', repr(e.value))
@@ -113,6 +115,10 @@ class MethodEval:
                 isinstance(env.get(e.value.id), tuple) and env[e.value.id][0] == 'loopvar' and \
                 isinstance(e.slice, ast.Constant) and isinstance(e.slice.value, str):
             return ('param', '%s[%r]' % (e.value.id, e.slice.value))
+        if isinstance(e, ast.BinOp) and isinstance(e.op, ast.Mod) and isinstance(e.left, ast.Name) and \
+                e.left.id in self.consts:
+            elts = e.right.elts if isinstance(e.right, ast.Tuple) else [e.right]
+            return ('path', self.consts[e.left.id], [self.to_arg(self.ev(x, env), x) for x in elts])
         if isinstance(e, ast.Call):
             f = dotted(e.func)
             if f == 'quote':
@@ -169,15 +175,13 @@ class MethodEval:
             if len(call.args) != 1:
                 raise self.err('HTTP client call needs exactly one positional argument (the path)', call)
             p = call.args[0]
-            if isinstance(p, ast.BinOp) and isinstance(p.op, ast.Mod):
-                tname, right = p.left, p.right
-                elts = right.elts if isinstance(right, ast.Tuple) else [right]
-                r['args'] = [self.to_arg(self.ev(x, env), x) for x in elts]
+            if isinstance(p, ast.Name) and p.id not in env and p.id in self.consts:
+                v = ('path', self.consts[p.id], [])
             else:
-                tname = p
-            if not (isinstance(tname, ast.Name) and tname.id in self.consts):
-                raise self.err('path template is not a module constant: %s' % ast.unparse(tname)[:40], call)
-            r['template'] = self.consts[tname.id]
+                v = self.ev(p, env)
+            if v[0] != 'path':
+                raise self.err('path is not <module constant> %% (...): %s' % ast.unparse(p)[:40], call)
+            r['template'], r['args'] = v[1], v[2]
             for k in call.keywords:
                 if k.arg == 'payload':
                     v = self.ev(k.value, env)
@@ -299,21 +303,33 @@ def http_kernel(src):
     """The literal facts of HTTPClient._request the model relies on."""
     f = src.func('management/http_client.py', 'HTTPClient', '_request')
     out = {}
+    url_var = None
     for node in ast.walk(f):
-        if isinstance(node, ast.Assign) and ast.unparse(node.targets[0]) == 'url':
+        if isinstance(node, ast.Assign) and isinstance(node.value, ast.Call) and \
+                (dotted(node.value.func) or '').endswith('urljoin'):
             v = node.value
-            if not (isinstance(v, ast.Call) and (dotted(v.func) or '').endswith('urljoin') and len(v.args) == 2
+            if not (len(node.targets) == 1 and isinstance(node.targets[0], ast.Name) and len(v.args) == 2
                     and ast.unparse(v.args[0]) == 'self._base_url' and isinstance(v.args[1], ast.BinOp)
                     and isinstance(v.args[1].op, ast.Mod) and isinstance(v.args[1].left, ast.Constant)
                     and ast.unparse(v.args[1].right) == 'path'):
                 raise ExtractError('_request: url is not urljoin(self._base_url, <literal> %% path)')
             out['prefix'] = v.args[1].left.value
+            url_var = node.targets[0].id
+        if isinstance(node, ast.Call) and dotted(node.func) == 'self.session.request':
+            out['request_args'] = [ast.unparse(a) for a in node.args]
+            out['request_kw'] = sorted((k.arg, ast.unparse(k.value)) for k in node.keywords)
         if isinstance(node, ast.Assign) and ast.unparse(node.targets[0]) == "headers['content-type']":
             if not isinstance(node.value, ast.Constant):
                 raise ExtractError('_request: content-type is not a literal')
             out['ctype'] = node.value.value
     if 'prefix' not in out or 'ctype' not in out:
         raise ExtractError('_request: url / content-type assignment not found')
+    if out.get('request_args') != ['method', url_var]:
+        raise ExtractError('_request: session.request is not called with (method, <joined url>): %r' % out.get('request_args'))
+    want_kw = [('auth', 'self._auth'), ('data', 'payload'), ('headers', 'headers'), ('params', 'params'),
+               ('timeout', 'self._timeout')]
+    if out.get('request_kw') != want_kw:
+        raise ExtractError('_request: session.request keywords are %r' % (out.get('request_kw'),))
     if not out['prefix'].endswith('%s') or '%' in out['prefix'][:-2]:
         raise ExtractError('_request: path prefix %r is not <literal>%%s' % out['prefix'])
     out['prefix'] = out['prefix'][:-2]
